@@ -268,6 +268,22 @@ func run(res *evid.Result, idx int, root string) {
 	}
 	dir := filepath.Join(root, fmt.Sprintf("s%d", idx))
 	defer os.RemoveAll(dir)
+	if idx%5 == 1 {
+		// generated-code style: //line directives in front of some declarations relabel the
+		// positions of everything that follows (in both revisions, or in the new one only);
+		// they are comments and change nothing about which functions the files contain
+		for side, f := range []*gen.File{sc.old, sc.new} {
+			if side == 0 && idx%10 == 6 {
+				continue
+			}
+			for i := range f.Funcs {
+				if r.Intn(3) == 0 {
+					f.Funcs[i].Text = fmt.Sprintf("//line grammar%d.y:%d\n", side, 10+r.Intn(400)) + f.Funcs[i].Text
+				}
+			}
+		}
+		res.Count("file_pairs_with_line_directives", 1)
+	}
 	oldPath, _ := pairs.WriteFP(dir, "old", "p", sc.old.Source())
 	newPath, _ := pairs.WriteFP(dir, "new", "p", sc.new.Source())
 	if idx%5 == 3 {
